@@ -1,6 +1,7 @@
 package internal
 
 import (
+	"bytes"
 	"io"
 	"os"
 	"strings"
@@ -18,6 +19,20 @@ func Sync(path string) error {
 		return err
 	}
 	return f.Close()
+}
+
+// ReadN reads exactly n bytes from r. The buffer grows with the bytes that are
+// actually received so that a length prefix read from the wire cannot force a
+// large up-front allocation. Like io.ReadFull(), it returns io.EOF if no bytes
+// were read and io.ErrUnexpectedEOF if r ended after some but not all bytes.
+func ReadN(r io.Reader, n int64) ([]byte, error) {
+	var buf bytes.Buffer
+	if _, err := io.CopyN(&buf, r, n); err == io.EOF && buf.Len() > 0 {
+		return nil, io.ErrUnexpectedEOF
+	} else if err != nil {
+		return nil, err
+	}
+	return buf.Bytes(), nil
 }
 
 // ReadFullAt is an implementation of io.ReadFull() but for io.ReaderAt.
